@@ -196,7 +196,7 @@ Theorem C14_cl_update_complete :
   good_key pk sk ->
   Forall (fun a => Z.gcd a (pk_N pk) = 1%Z) bases ->
   forallb (msg_in_range CS) msgs = true -> (length msgs <= length bases)%nat ->
-  (0 <= c_rand C)%Z -> (0 <= bs_rprime b)%Z -> (two (le CS - 1) < bs_e b)%Z ->
+  (0 <= c_rand C)%Z -> (0 <= bs_rprime b)%Z -> (two (le CS - 1) < bs_e b < two (le CS))%Z ->
   (match revealed, ridx with
    | Some rm, Some _ => extend_commitment_with_pk C rm pk bases ridx
    | _, _ => Ok C
@@ -212,7 +212,7 @@ Check (C14_cl_update_complete :
   good_key pk sk ->
   Forall (fun a => Z.gcd a (pk_N pk) = 1%Z) bases ->
   forallb (msg_in_range CS) msgs = true -> (length msgs <= length bases)%nat ->
-  (0 <= c_rand C)%Z -> (0 <= bs_rprime b)%Z -> (two (le CS - 1) < bs_e b)%Z ->
+  (0 <= c_rand C)%Z -> (0 <= bs_rprime b)%Z -> (two (le CS - 1) < bs_e b < two (le CS))%Z ->
   (match revealed, ridx with
    | Some rm, Some _ => extend_commitment_with_pk C rm pk bases ridx
    | _, _ => Ok C
@@ -266,3 +266,15 @@ Check (C14_zkpok_subproofs_untied :
   forall C' Ct' ck', zkpok_verify CS BP q C' Ct' pk bases ck' U = Ok true ->
   zkpok_verify CS BP (zk_with_subproofs p (zk_pmi q) (zk_rpmi q) (zk_pr q) (zk_rpr q)) C Ct pk bases ck U = Ok true).
 Print Assumptions C14_zkpok_subproofs_untied.
+
+(* fix F17: an accepted issuance proof carries exactly one opening proof and one range proof per hidden attribute *)
+Theorem C14_zkpok_accepts_lengths :
+  forall CS BP p C Ct pk bases ck U,
+  zkpok_verify CS BP p C Ct pk bases ck U = Ok true ->
+  length (zk_pmi p) = length U /\ length (zk_rpmi p) = length U.
+Proof. exact zkpok_accepts_lengths. Qed.
+Check (C14_zkpok_accepts_lengths :
+  forall CS BP p C Ct pk bases ck U,
+  zkpok_verify CS BP p C Ct pk bases ck U = Ok true ->
+  length (zk_pmi p) = length U /\ length (zk_rpmi p) = length U).
+Print Assumptions C14_zkpok_accepts_lengths.
